@@ -6,8 +6,9 @@ C02 — "Type soundness: programs the checker accepts never go wrong."
   host panic), and the value returned has the shape of the type the checker reported. This holds
   under every compiler setting and across module imports.
 
-Model: `GluonModel.SurfTy` — the declarative typing `HasType` of the surface fragment the shared
-generator emits (functions with n-ary/partial/over-application, let with patterns, `rec` groups,
+Model: `GluonModel.SurfTy` — the declarative typing `HasType` (WITH let-polymorphism: contexts hold
+type schemes, generalisation at `let x = e`, instantiation at variables) of the surface fragment
+the shared generator emits (functions with n-ary/partial/over-application, let with patterns, `rec` groups,
 if, integer primitives, `&&`/`||`, declared variants, nested patterns, records with ordered fields,
 record update, projection, tuples, arrays, `error`), the typing of run-time values `HasShape`
 (what the harness's `ValueRef`-against-`ArcType` walk tests on the real VM), the reference
@@ -60,8 +61,8 @@ theorem apply_safe (D : Decls) (n : Nat) (f : Val) (args : List Val) (σs : List
 
 /-- Pattern matching only ever binds values of the shapes the pattern's typing promises (the
     invariant behind `let` with patterns and `match`). -/
-theorem match_bindings_sound (D : Decls) (p : Pat) (v : Val) (τ : STy) (Δ : Ctx) (b : Env)
-    (hp : PatType D p τ Δ) (hv : HasShape D v τ) (hm : matchPat p v = some b) : EnvOk D b Δ :=
+theorem match_bindings_sound (D : Decls) (p : Pat) (v : Val) (τ : STy) (Δ : MCtx) (b : Env)
+    (hp : PatType D p τ Δ) (hv : HasShape D v τ) (hm : matchPat p v = some b) : EnvOk D b (liftCtx Δ) :=
   Proofs.matchPat_sound p hp hv hm
 
 /-! Canonical forms: what `HasShape` means for the host's type-directed walk of a result value
@@ -92,19 +93,55 @@ theorem shape_function (D : Decls) (v : Val) (a b : STy) (h : HasShape D v (.fn 
   | ctorfn => exact .inr (.inr (.inl ⟨_, _, rfl⟩))
   | pap => exact .inr (.inr (.inr ⟨_, _, rfl⟩))
 
-/-- The model's (verified) checker is sound for the declarative system: an annotated program it
-    accepts is typed, so by `soundness_closed` it never goes wrong. The driver runs this checker
-    on every generated program the real checker accepted (annotations found by the untrusted
-    elaborator `SurfTy.Elab.elabProgram`). -/
-theorem infer_sound (D : Decls) (Γ : Ctx) (a : AExpr) (τ : STy) (h : inferA D Γ a = some τ) :
-    HasType D Γ a.erase τ :=
-  Proofs.inferA_sound a h
+/-! ### The verified POLYMORPHIC checker
 
-/-- … hence: accepted by the model checker ⇒ never goes wrong. -/
-theorem checked_programs_safe (D : Decls) (n : Nat) (a : AExpr) (τ : STy)
-    (h : inferA D [] a = some τ) :
-    (∀ w, eval n [] a.erase ≠ .error (.wrong w)) ∧ (∀ v, eval n [] a.erase = .ok v → HasShape D v τ) :=
-  soundness_closed D n a.erase τ (infer_sound D [] a τ h)
+`inferA` works on annotated programs with syntactic type schemes `forall vs . τ` in its context:
+`letp x vs e₁ e₂` generalises `x` over `vs` (which must not be free in the context), a variable
+carries the instantiation of its scheme. `den R s` is the meaning of a scheme under a valuation `R`
+of its free type variables (the set of its instances), `denCtx R Γ` that of a context. -/
+
+/-- **Soundness of the polymorphic checker**: an annotated program it accepts at `τ` has, under
+    EVERY valuation `R` of the type variables, the instance `τ.subst R` in the declarative system
+    with let-polymorphism (`HasType` over semantic schemes). The driver runs this checker on every
+    generated program the real checker accepted and on every member of the family "generalisation
+    under a binder" (annotations found by the untrusted elaborator `SurfTy.Elab`). -/
+theorem infer_sound (D : Decls) (hD : DClosed D) (Γ : PCtx) (a : AExpr) (τ : STy)
+    (h : inferA D Γ a = some τ) (R : Nat → STy) :
+    HasType D (denCtx R Γ) a.erase (τ.subst R) :=
+  Proofs.inferA_sound hD a h R
+
+/-- **Generalisation is sound** (the substitution lemma for schemes, in the form `letp` needs): if
+    the checker gives the right-hand side the type `τ₁` and the variables `vs` are not free in the
+    context, then the right-hand side has EVERY instance of the scheme `forall vs . τ₁`. -/
+theorem generalisation_sound (D : Decls) (hD : DClosed D) (Γ : PCtx) (a₁ : AExpr) (τ₁ : STy) (vs : List Nat)
+    (h : inferA D Γ a₁ = some τ₁) (hfree : ∀ v, v ∈ vs → freeInCtx v Γ = false) (R : Nat → STy) (τ' : STy)
+    (hinst : den R (vs, τ₁) τ') : HasType D (denCtx R Γ) a₁.erase τ' := by
+  obtain ⟨R', hagree, rfl⟩ := hinst
+  have h1 := Proofs.inferA_sound hD a₁ h R'
+  rw [Proofs.denCtx_agree R R' vs Γ hagree hfree] at h1
+  exact h1
+
+/-- **Instantiation is sound**: every syntactic instance `τ[vs := ts]` of a scheme belongs to its
+    meaning, under every valuation. -/
+theorem instantiation_sound (vs : List Nat) (ts : List STy) (τ : STy) (R : Nat → STy) :
+    den R (vs, τ) ((τ.subst (instSub vs ts)).subst R) :=
+  ⟨fun n => (instSub vs ts n).subst R,
+    fun n hn => by simp only [Proofs.instSub_not_mem hn, STy.subst], Proofs.subst_comp _ _ _⟩
+
+/-- … hence: accepted by the polymorphic model checker ⇒ never goes wrong, and a value has the shape
+    of every instance of the reported type. -/
+theorem checked_programs_safe (D : Decls) (hD : DClosed D) (n : Nat) (a : AExpr) (τ : STy)
+    (h : inferA D [] a = some τ) (R : Nat → STy) :
+    (∀ w, eval n [] a.erase ≠ .error (.wrong w)) ∧
+    (∀ v, eval n [] a.erase = .ok v → HasShape D v (τ.subst R)) :=
+  soundness_closed D n a.erase (τ.subst R) (infer_sound D hD [] a τ h R)
+
+/-- the same for the declaration table the driver uses, at the reported type itself -/
+theorem checked_programs_safe_generator (n : Nat) (a : AExpr) (τ : STy)
+    (h : inferA surfDeclsA [] a = some τ) :
+    (∀ w, eval n [] a.erase ≠ .error (.wrong w)) ∧ (∀ v, eval n [] a.erase = .ok v → HasShape surfDeclsA v τ) := by
+  have := checked_programs_safe surfDeclsA Proofs.surfDeclsA_closed n a τ h STy.tvar
+  rwa [Proofs.subst_id] at this
 
 /-! ### Record literals checked against an expected record type (typecheck.rs:1016-1043)
 
@@ -259,7 +296,7 @@ theorem import_agreement_fixed (D : Decls) (runIoSetting : Bool) (g g' : Global)
 example : HasType (fun _ _ => none) [] (.app (.lam ["x"] (.prim "+" (.var "x") (.int 1))) [.int 2]) .int :=
   .app (φ := .fn .int .int) (σs := [.int])
     (.lam (τs := [.int]) (ρ := .int) (by simp) rfl
-      (.primInt (.inl rfl) (.var (by simp [bindCtx, lookupCtx])) .int) rfl)
+      (.primInt (.inl rfl) (.var (S := Sch.mono .int) (by simp [bindCtx, lookupCtx]) rfl) .int) rfl)
     rfl (.cons .int .nil)
 
 example : eval 10 [] (.app (.lam ["x"] (.prim "+" (.var "x") (.int 1))) [.int 2]) = .ok (.int 3) := by rfl
@@ -277,11 +314,53 @@ example : eval 10 [] (.app (.int 1) [.int 2]) = .error (.wrong "call") := by rfl
     `rec let f n = if n < 1 then 0 else f (n - 1) in match Cons (f 3) Nil with | Cons h _ -> h | _ -> 7` -/
 example : inferA surfDeclsA []
     (.letrec (.cons "f" [("n", .int)] .int
-        (.ite (.prim "<" (.var "n") (.int 1)) (.int 0)
-          (.app (.var "f") (.cons (.prim "-" (.var "n") (.int 1)) .nil))) .nil)
-      (.match_ (.app (.ctor 1 1 2) (.cons (.app (.var "f") (.cons (.int 3) .nil)) (.cons (.ctor 1 0 0) .nil)))
-        (.cons (.ctor 1 [.var "h", .wild]) (.var "h") (.cons .wild (.int 7) .nil)) .int)) = some .int := by
+        (.ite (.prim "<" (.var "n" []) (.int 1)) (.int 0)
+          (.app (.var "f" []) (.cons (.prim "-" (.var "n" []) (.int 1)) .nil))) .nil)
+      (.match_ (.app (.ctor 1 1 2) (.cons (.app (.var "f" []) (.cons (.int 3) .nil)) (.cons (.ctor 1 0 0) .nil)))
+        (.cons (.ctor 1 [.var "h", .wild]) (.var "h" []) (.cons .wild (.int 7) .nil)) .int)) = some .int := by
   rfl
+
+/-- let-polymorphism: `let id = \x -> x in (id 1, id "s")` — `id` is generalised over the type
+    variable 0 and instantiated at `Int` and at `String` -/
+def polyExample : AExpr :=
+  .letp "id" [0] (.lam [("x", .tvar 0)] (.var "x" []))
+    (.record (.cons (.app (.var "id" [.int]) (.cons (.int 1) .nil))
+      (.cons (.app (.var "id" [.str]) (.cons (.str "s") .nil)) .nil)) none [.field 0, .field 1])
+
+example : inferA surfDeclsA [] polyExample = some (.recd [.int, .str]) := by rfl
+
+/-- … so the program has that type in the declarative system with schemes (rule `letGen`), and
+    running it gives `(1, "s")` -/
+example : HasType surfDeclsA [] polyExample.erase (.recd [.int, .str]) := by
+  have := infer_sound surfDeclsA Proofs.surfDeclsA_closed [] polyExample _ rfl STy.tvar
+  rwa [Proofs.subst_id] at this
+
+example : eval 10 [] polyExample.erase = .ok (.data 0 [.int 1, .str "s"]) := by rfl
+
+/-- generalisation under a binder: in `\x -> let g = \a -> x a in (g 1, g "s")` the type of `a` is
+    tied to the lambda-bound `x`; annotating `g` as generalised over it is REFUSED by the verified
+    checker (the variable is free in the context) -/
+example : inferA surfDeclsA []
+    (.lam [("x", .fn (.tvar 1) .int)]
+      (.letp "g" [1] (.lam [("a", .tvar 1)] (.app (.var "x" []) (.cons (.var "a" []) .nil)))
+        (.record (.cons (.app (.var "g" [.int]) (.cons (.int 1) .nil))
+          (.cons (.app (.var "g" [.str]) (.cons (.str "s") .nil)) .nil)) none [.field 0, .field 1]))) = none := by
+  rfl
+
+/-- … while its twin in which `a` is not tied to `x` is accepted with `g` polymorphic -/
+example : inferA surfDeclsA []
+    (.lam [("x", .fn .int .int)]
+      (.letp "g" [1] (.lam [("a", .tvar 1)] (.record (.cons (.var "a" []) (.cons (.app (.var "x" []) (.cons (.int 7) .nil)) .nil)) none [.field 0, .field 1]))
+        (.record (.cons (.app (.var "g" [.int]) (.cons (.int 1) .nil))
+          (.cons (.app (.var "g" [.str]) (.cons (.str "s") .nil)) .nil)) none [.field 0, .field 1]))) =
+    some (.fn (.fn .int .int) (.recd [.recd [.int, .int], .recd [.str, .int]])) := by
+  rfl
+
+/-- a scheme is more than one type: the instances of `forall 0 . 0 -> 0` include `Int -> Int` and
+    `String -> String` -/
+example : den STy.tvar ([0], .fn (.tvar 0) (.tvar 0)) (.fn .int .int) ∧
+    den STy.tvar ([0], .fn (.tvar 0) (.tvar 0)) (.fn .str .str) :=
+  ⟨instantiation_sound [0] [.int] _ STy.tvar, instantiation_sound [0] [.str] _ STy.tvar⟩
 
 example : globalInner false ⟨.io .int, .action (.int 1)⟩ = some ⟨.io .int, .action (.int 1)⟩ ∧
     ShapeM (fun _ _ => none) (MVal.action (.int 1)) (.io .int) :=
